@@ -56,6 +56,12 @@ var c12Faults = []c12Fault{
 	{"BEGIN { for (q in 5) { } }", ErrRuntime, 8, 20, false},
 	{"BEGIN { print \"abc }", ErrSyntax, 14, 20, true},
 	{"BEGIN { break }", ErrSyntax, 8, 13, false},
+	{"BEGIN { x = 1 & 2 }", ErrSyntax, 14, 15, false},
+	{"BEGIN { x = 1 | 2 }", ErrSyntax, 14, 15, false},
+	{"BEGIN { x = 1 &", ErrSyntax, 14, 15, false},
+	{"BEGIN { x = 1 |", ErrSyntax, 14, 15, true},
+	{"BEGIN { x = y ? 1 }", ErrSyntax, 14, 15, false},
+	{"BEGIN { x = `a` }", ErrSyntax, 12, 13, false},
 }
 
 func posOf(err error) (int, int, string) {
@@ -135,7 +141,7 @@ func VHC12Statements() {
 	before := vh.Choose("before", 3)
 	prog := ""
 	for i := 0; i < before; i++ {
-		prog += []string{"# comment é", "BEGIN { s = \"two\nlines\" }"}[i%2] + "\n"
+		prog += []string{"BEGIN { t0 = true; f0 = false; n0 = null; e0 = [null, true] } # comment é", "BEGIN { s = \"two\nlines\" }"}[i%2] + "\n"
 	}
 	line := before + 1
 	if before == 2 {
